@@ -71,6 +71,32 @@ LITERAL_PROGRAMS = {
 }
 
 
+def literal_program(rng):
+    """several string literals per expression, contents often identical (the tables of one expression
+    are created from a hash map: their order must not depend on its iteration order)"""
+    pool = ['same', 'same', 'same', 'a', 'ab', '', 'x y', 'same ']
+    lit = lambda: '"%s"' % rng.choice(pool)
+    L = ['char *p; char *q; char *r3; unsigned char c;',
+         'void f2(char *x, char *y) { p = x; q = y; }',
+         'void f3(char *x, char *y, char *z) { p = x; q = y; r3 = z; }']
+    if rng.random() < 0.5:
+        n = rng.randrange(2, 5)
+        L.append('const char *tab[%d] = {%s};' % (n, ', '.join(lit() for _ in range(n))))
+    body = []
+    for _ in range(rng.randrange(1, 5)):
+        k = rng.randrange(4)
+        if k == 0:
+            body.append('f2(%s, %s);' % (lit(), lit()))
+        elif k == 1:
+            body.append('f3(%s, %s, %s);' % (lit(), lit(), lit()))
+        elif k == 2:
+            body.append('p = c ? %s : %s;' % (lit(), lit()))
+        else:
+            body.append('q = %s;' % lit())
+    L.append('void main() { %s }' % ' '.join(body))
+    return '\n'.join(L) + '\n'
+
+
 def canon(r):
     """everything observable of one compilation"""
     return json.dumps({k: r.get(k) for k in ('status', 'err', 'vars', 'funcs', 'tree', 'inuse', 'lits', 'pp', 'map')}, sort_keys=True)
@@ -92,6 +118,8 @@ def run(ctx):
             expected_forder['h%d' % i] = fo
         else:
             srcs['p%d' % i] = gen_program(rng, dict(calls=True, inline=(i % 4 == 1), hw=(i % 3 == 0))).source()
+    for i in range(60 if quick else 1500):
+        srcs['l%d' % i] = literal_program(rng)
     srcs.update(LITERAL_PROGRAMS)
     keys = list(srcs.keys())
     want = ['vars', 'funcs', 'text', 'lits', 'pp', 'map']
